@@ -16,6 +16,7 @@ import (
 	"net/http"
 	"strings"
 	"sync"
+	"sync/atomic"
 	"testing"
 	"time"
 
@@ -327,6 +328,28 @@ type vpC10Resp struct {
 	Proto     string
 	ConnLines []string
 	Mutate    bool // streaming callers only: the application edits the response's Connection header before closing the body stream
+	Identity  bool // a response that says close may also be framed by it: no Content-Length, no chunking, the body ends when the origin closes
+}
+
+// the client's end of a connection to the harness origin: counts writes that arrive after the origin has
+// begun a response that says close (the request that response answers was read completely before)
+type vpC10CliConn struct {
+	net.Conn
+	saidClose  atomic.Bool
+	lateWrites atomic.Int32
+	closes     atomic.Int32
+}
+
+func (c *vpC10CliConn) Close() error {
+	c.closes.Add(1)
+	return c.Conn.Close()
+}
+
+func (c *vpC10CliConn) Write(p []byte) (int, error) {
+	if c.saidClose.Load() {
+		c.lateWrites.Add(1)
+	}
+	return c.Conn.Write(p)
 }
 
 func vpC10RespSaysClose(r vpC10Resp) bool {
@@ -352,14 +375,17 @@ func vpC10RunClientMode(script []vpC10Resp, stream bool) string {
 	global := 0
 	var wg sync.WaitGroup
 	var conns []net.Conn
+	var cliConns []*vpC10CliConn
 	hc := &HostClient{
 		Addr:               "origin:80",
 		MaxConns:           1,
 		StreamResponseBody: stream,
 		Dial: func(addr string) (net.Conn, error) {
-			c, srv := net.Pipe()
+			rawc, srv := net.Pipe()
+			c := &vpC10CliConn{Conn: rawc}
 			l := &connLog{}
 			mu.Lock()
+			cliConns = append(cliConns, c)
 			logs = append(logs, l)
 			id := len(logs) - 1
 			conns = append(conns, srv)
@@ -392,12 +418,23 @@ func vpC10RunClientMode(script []vpC10Resp, stream bool) string {
 					}
 					mu.Unlock()
 					var b strings.Builder
-					fmt.Fprintf(&b, "%s 200 OK\r\nContent-Length: 2\r\n", r.Proto)
+					if r.Identity && vpC10RespSaysClose(r) {
+						fmt.Fprintf(&b, "%s 200 OK\r\n", r.Proto)
+					} else {
+						fmt.Fprintf(&b, "%s 200 OK\r\nContent-Length: 2\r\n", r.Proto)
+					}
 					for _, cl := range r.ConnLines {
 						fmt.Fprintf(&b, "Connection: %s\r\n", cl)
 					}
 					b.WriteString("\r\nok")
+					if vpC10RespSaysClose(r) {
+						c.saidClose.Store(true)
+					}
 					if _, err := srv.Write([]byte(b.String())); err != nil {
+						return
+					}
+					if r.Identity && vpC10RespSaysClose(r) {
+						srv.Close() // the end of the body
 						return
 					}
 					// the origin deliberately leaves the socket open
@@ -407,10 +444,12 @@ func vpC10RunClientMode(script []vpC10Resp, stream bool) string {
 		},
 	}
 	errs := 0
+	keptAfterClose := ""
 	for i := range script {
 		req, resp := AcquireRequest(), AcquireResponse()
 		req.SetRequestURI(fmt.Sprintf("http://origin/q%d", i))
-		if err := hc.DoTimeout(req, resp, 10*time.Second); err != nil {
+		err := hc.DoTimeout(req, resp, 10*time.Second)
+		if err != nil {
 			errs++
 		} else if stream {
 			if script[i].Mutate {
@@ -425,6 +464,17 @@ func vpC10RunClientMode(script []vpC10Resp, stream bool) string {
 		}
 		ReleaseRequest(req)
 		ReleaseResponse(resp)
+		// MaxConns is 1 and the calls are sequential: once a call whose response said close is over (body stream
+		// closed, response released), the client must not keep that connection - a kept connection is what the
+		// next call is lent. (Only judged while request k was answered by script[k], i.e. nothing was re-sent.)
+		mu.Lock()
+		aligned := global == i+1
+		mu.Unlock()
+		if err == nil && aligned && vpC10RespSaysClose(script[i]) && keptAfterClose == "" {
+			if n := hc.ConnsCount(); n != 0 {
+				keptAfterClose = fmt.Sprintf("call #%d: its response said close (Connection lines %q, identity-framed=%v), yet the client still keeps %d connection(s) after the call is over - the next request would be sent on it", i, script[i].ConnLines, script[i].Identity, n)
+			}
+		}
 	}
 	hc.CloseIdleConnections()
 	mu.Lock()
@@ -438,6 +488,15 @@ func vpC10RunClientMode(script []vpC10Resp, stream bool) string {
 	for _, l := range logs {
 		if l.violation != "" {
 			return l.violation
+		}
+	}
+	if keptAfterClose != "" {
+		return keptAfterClose
+	}
+	_ = errs
+	for i, c := range cliConns {
+		if n := c.lateWrites.Load(); n > 0 {
+			return fmt.Sprintf("connection #%d: the client wrote to it %d time(s) after its response had said close (a further request was sent on it)", i, n)
 		}
 	}
 	return ""
@@ -467,6 +526,7 @@ func TestVP_C10_Client(t *testing.T) {
 			}
 			if vpC10RespSaysClose(r) {
 				closes++
+				r.Identity = rapid.IntRange(0, 2).Draw(t, "identityFramed") == 0
 			}
 			script = append(script, r)
 		}
